@@ -80,6 +80,7 @@ func init() {
 		Title: "Indexes and store are race-free and visibility-linearizable under concurrency (claimed in part)",
 		Harnesses: []*HarnessSpec{
 			c11("H_C11_ids", "NewVectorNode / NewMetadataNode from two goroutines (2 ids each), <=3 pre-emptions at the atomic operations: all ids distinct and non-zero", "ran"),
+			c11("H_C11_ids_hybrid", "two hybrid index instances used from two goroutines through Add (automatic ids), one of them also has an Add rejected in between (wrong dimension / unsupported metadata value), <=3 pre-emptions at the atomic operations and locks: the four ids of the successful Adds are pairwise different, every document is findable", "ran"),
 			c11("H_C11_meta", "metadata index: Add||search, Remove||search, Add||Add; <=2 pre-emptions; + lockset analysis", "ran"),
 			c11("H_C11_flat", "all 5 vector kinds (+ lockset analysis over the two threads), 2 resident vectors: Add||search, Remove||search, Remove||Remove (exactly one succeeds), Flush||search, Add||Flush, Add||find-similar search (WithNode); <=2 pre-emptions; sync.RWMutex modelled with writer preference (a blocked Lock excludes new readers), deadlocks reported: no error, visibility rule, results well-formed, state after quiescence", "ran"),
 			c11("H_C11_search_search", "5 vector kinds: two concurrent searches with id restrictions on one index and on two indexes (pooled document filters and heaps), <=1 pre-emption: both pass the exact top-k oracle", "ran"),
